@@ -15,7 +15,7 @@ from ..flow import Flow, emptiness_test_kind
 from ..alg import Sym, Unsupported, _binop
 
 GEO = "typhon/geographical.py"
-EXPECT = {"C06.units": 8, "C06.scale": 4, "C06.deshuffle": 2, "C06.pairs": 4, "C06.empty": 1, "C06.metric": 2, "C06.complete": 3, "C06.pure": 3}
+EXPECT = {"C06.units": 8, "C06.scale": 4, "C06.deshuffle": 2, "C06.pairs": 4, "C06.empty": 1, "C06.metric": 2, "C06.complete": 3, "C06.pure": 3, "C06.support": 1}
 
 SI_KM = {  # unit -> (kilometres per unit, accepted spellings)
     "cm": (1e-5, {"cm", "centimeter", "centimeters", "centimetre", "centimetres"}),
@@ -453,6 +453,34 @@ def pair_builders(f, flow):
     return out
 
 
+# metrics the scikit-learn trees can be built with (sklearn.neighbors.KDTree.valid_metrics / BallTree.valid_metrics, frozen): the two
+# metrics GeoIndex offers
+TREE_METRICS = {"BallTree": {"minkowski", "haversine"}, "KDTree": {"minkowski"}}
+
+
+def rule_support(ctx):
+    """Every (tree class, metric) combination the constructor accepts must be one the tree can be built with."""
+    ctx.rule("C06.support", "T3 api", "GeoIndex builds the chosen tree class only with a metric that class supports")
+    f = ctx.func(GEO, "GeoIndex.__init__")
+    flow = Flow(f)
+    classes = sorted({n_.id for st in flow.stmts if isinstance(st, ast.Assign) and str(norm(st.targets[0])) == "tree_class" and isinstance(st.value, ast.Name)
+                      for n_ in [st.value] if n_.id in TREE_METRICS})
+    if not classes:
+        raise AnalysisError("GeoIndex.__init__: the choice of the tree class was not found")
+    m = ctx.func(GEO, "GeoIndex._to_metric")
+    metrics = sorted({const_value(c_.comparators[0]) for c_ in ast.walk(m.node) if isinstance(c_, ast.Compare) and str(norm(c_.left)) == "self.metric"
+                      and isinstance(c_.comparators[0], ast.Constant)})
+    # combinations the constructor handles specially (a guard that mentions both the tree class and the metric)
+    special = [st for st in flow.stmts if isinstance(st, ast.If) and "metric" in str(norm(st.test)) and ("tree_class" in str(norm(st.test)) or "KDTree" in str(norm(st.test)))]
+    bad = [(c_, mt_) for c_ in classes for mt_ in metrics if mt_ not in TREE_METRICS[c_]] if not special else []
+    if special:
+        raise AnalysisError("GeoIndex.__init__: special handling of a (tree class, metric) combination is not modelled: %s" % str(norm(special[0].test))[:80])
+    ctx.ob("GeoIndex.__init__.tree_metric", not bad, "tree classes %s x metrics %s; unsupported: %s" % (classes, metrics, bad or "none"),
+           "every combination is supported by scikit-learn (KDTree has no haversine metric: GeoIndex(lat, lon, metric='haversine', tree_class='KD') raises ValueError, "
+           "so the answer of the great-circle query depends on the tree class)", node=f.node, func=f,
+           witness=None if not bad else {"GeoIndex": "metric='haversine', tree_class='KD'", "raises": "ValueError: metric HaversineDistance64 is not valid for KDTree64"})
+
+
 def rule_pairs(ctx):
     ctx.rule("C06.pairs", "T6", "row 0 = build index, row 1 = query index; distances flattened in the same query-major order")
     f = ctx.func(GEO, "GeoIndex.query")
@@ -614,7 +642,7 @@ def rule_complete(ctx):
 
 
 def run(ctx):
-    for r in (rule_units, rule_scale, rule_deshuffle, rule_pairs, rule_empty, rule_metric, rule_complete):
+    for r in (rule_units, rule_scale, rule_deshuffle, rule_pairs, rule_empty, rule_metric, rule_complete, rule_support):
         ctx.attempt(r, ctx)
     from ..purity import rule_pure
     ctx.attempt(rule_pure, ctx, "C06.pure", [(GEO, "GeoIndex.query"), (GEO, "GeoIndex._to_metric"), (GEO, "to_kilometers")])
